@@ -762,8 +762,12 @@ impl ReCompiler {
                         quantifier_type = Some('*');
                     }
                     Some('{') => {
-                        // bounds are meaningless
-                        quantifier_type = Some('*')
+                        // the minimum is meaningless, a maximum still counts
+                        if self.bracket_max == usize::MAX {
+                            quantifier_type = Some('*')
+                        } else {
+                            self.bracket_min = 0;
+                        }
                     }
                     _ => {}
                 }
